@@ -230,6 +230,18 @@ def tamper_ops(name, t, siglen):
     elif tree == "member-deleted":
         pre = [{"c": "del", "i": "MEMBER"}]
         post = [{"c": "RESTORE"}]
+    elif tree == "other-changed-batch":
+        pre = [{"c": "regbatch", "i": 77, "ids": [[I(123), I(2)]], "rem": []}]
+        post = [{"c": "regbatch", "i": 0, "ids": [], "rem": [77]}]
+    elif tree == "other-changed-range":
+        pre = [{"c": "regrange", "i": 77, "ids": [[I(123), I(2)], [I(124), I(2)]]}]
+        post = [{"c": "del", "i": 77}, {"c": "del", "i": 78}]
+    elif tree == "member-deleted-batch":
+        pre = [{"c": "DELBATCH"}]              # atomic_operation removing the member (positions <= 255), else delete_leaf
+        post = [{"c": "RESTORE"}]
+    elif tree == "member-overwritten-range":
+        pre = [{"c": "OVERWRITE"}]             # set_leaves_from writes another identity over the member
+        post = [{"c": "RESTORE"}]
     elif tree == "changed-restored":
         pre = [{"c": "setraw", "i": 78, "v": I(5)}, {"c": "del", "i": 78}]
     elif tree == "restarted":
@@ -241,7 +253,7 @@ def tamper_ops(name, t, siglen):
         base["roots"] = {"empty": [], "cur": ["cur"], "other": ["rnd"], "other+cur": ["rnd", "cur"], "stale": ["msg"],
                          "zero": ["zero"], "zeros": ["zero"] * 5, "zero+cur": ["zero", "cur"],
                          "straddle1": ["straddle1"], "straddle8": ["straddle8"], "straddle16": ["straddle16"], "straddle31": ["straddle31"]}[roots]
-    if tree in ("member-deleted", "restarted-member-deleted") and (kind == "stateful" or (kind == "roots" and roots in ("cur", "zero+cur", "other+cur"))):
+    if tree in ("member-deleted", "restarted-member-deleted", "member-deleted-batch", "member-overwritten-range") and (kind == "stateful" or (kind == "roots" and roots in ("cur", "zero+cur", "other+cur"))):
         base["must"] = "reject"       # the current root cannot be the message's any more
     return pre + [base] + post
 
@@ -277,6 +289,10 @@ def scen_c02(wd, rnd, n_msgs, n_tampers):
                     op = dict(op, i=idx)
                 if op.get("c") == "RESTORE":
                     op = {"c": "reg", "i": idx, "s": s, "lim": lim}
+                if op.get("c") == "DELBATCH":
+                    op = {"c": "regbatch", "i": 0, "ids": [], "rem": [idx]} if idx <= 255 else {"c": "del", "i": idx}
+                if op.get("c") == "OVERWRITE":
+                    op = {"c": "regrange", "i": idx, "ids": [[I(125), I(2)]]}
                 sc.append(op)
     return sc
 
